@@ -309,9 +309,26 @@ PROPS = {
 from checks_conf_pure import C20, C14B_ENGINES_QUICK, C14B_ENGINES_THOROUGH, C14B_RULE, C15_ENGINES_QUICK, C15_ENGINES_THOROUGH, C15_RULE  # noqa: E402
 C20['claimed'] = True
 PROPS['C20'] = C20
-PROPS['C14B'] = dict(level='exploration', level_text='temporary entry: pure half of C14 (classifiers)', technique='property-based testing (rapid), differential against errors.Is', rule=C14B_RULE, assumptions=[], quick=dict(engines=C14B_ENGINES_QUICK), thorough=dict(engines=C14B_ENGINES_THOROUGH))
-PROPS['C15P'] = dict(level='exploration', level_text='temporary entry: pure half of C15 (record codec)', technique='property-based testing (rapid) with per-record exhaustive single-byte damage', rule=C15_RULE, assumptions=[], quick=dict(engines=C15_ENGINES_QUICK), thorough=dict(engines=C15_ENGINES_THOROUGH))
 
 from checks_conf_c19 import C19  # noqa: E402
 C19['claimed'] = True
 PROPS['C19'] = C19
+
+PROPS['C14'] = dict(
+    claimed=True,
+    level='exploration',
+    level_text="Two generated checks. (a) Histories: one request of each public method is issued in each client state (pending, attempt "
+               "in progress, down, online, closed) under a fault placement (write fails at once / within the packet / expires "
+               "after progress, response lost, malformed response, Persistence fault, Close while waiting, invalid argument, full "
+               "queue) with quit nil / closed / fired while waiting; the returned error must be in the set the package "
+               "documentation lists for that method, 'not submitted' classes must leave no byte of the request (unique marker) on "
+               "any wire and no slot or record behind, IsDeny and IsEnd must be disjoint and Backoff nil exactly for the permanent "
+               "classes. (b) Pure: error trees built from every error the library produces, wrapped and joined arbitrarily, "
+               "checked differentially against errors.Is and for purity of the classifiers.",
+    technique='property-based testing (rapid): state x method x fault-placement histories with a documented-class oracle; differential/purity check of the classifiers over generated error trees',
+    rule="(a) state from {pending, attempt-in-progress, down, online, closed} x 12 methods x placement from 10 x quit from 3, unique "
+         "marker in topic/filter; non-trivial = an error return under a fault. (b) " + C14B_RULE,
+    assumptions=ASSUME_SIM,
+    quick=dict(engines=[rapid('^TestC14aErrorClasses', 8000)] + C14B_ENGINES_QUICK),
+    thorough=dict(engines=[rapid('^TestC14aErrorClasses', 200000, shards=14, timeout=1500)] + C14B_ENGINES_THOROUGH),
+)
